@@ -431,7 +431,7 @@ func (g *gen) rewritePkgRefs(info *types.Info, node ast.Node) ast.Node {
 		switch node := c.Node().(type) {
 		case *ast.Ident:
 			// This is an unqualified identifier (qualified identifiers are peeled off below).
-			obj := info.ObjectOf(node)
+			obj := referencedObject(info, node)
 			if obj == nil {
 				return false
 			}
@@ -955,6 +955,16 @@ func disambiguate(name string, collides func(string) bool) string {
 	}
 }
 
+// referencedObject returns the object id refers to. The type name of an
+// embedded field both defines the field and uses the type; the reference to
+// the type is what matters when code is moved to another package.
+func referencedObject(info *types.Info, id *ast.Ident) types.Object {
+	if obj := info.Uses[id]; obj != nil {
+		return obj
+	}
+	return info.Defs[id]
+}
+
 // accessibleFrom reports whether node can be copied to wantPkg without
 // violating Go visibility rules.
 func accessibleFrom(info *types.Info, node ast.Node, wantPkg string) error {
@@ -967,7 +977,7 @@ func accessibleFrom(info *types.Info, node ast.Node, wantPkg string) error {
 		if !ok {
 			return true
 		}
-		obj := info.ObjectOf(ident)
+		obj := referencedObject(info, ident)
 		if obj == nil {
 			// Not a reference to a declared object (for example, the
 			// symbolic variable of a type switch): nothing to check.
